@@ -236,3 +236,147 @@ Proof.
   rewrite (Hf n) by by apply endpoints_dom. rewrite (Hl n) by (apply endpoints_dom; by rewrite <- Hend).
   rewrite eq_on_spec in Heq. apply Heq. by apply elem_of_elements.
 Qed.
+
+(* ---- both readers register the same blackbox instances under the same module name (no guard on the AST) *)
+Lemma rbind_ok {A B} (x : res A) (f : A → res B) b : rbind x f = Ok b → ∃ a, x = Ok a ∧ f a = Ok b.
+Proof. destruct x; simpl; try done. eauto. Qed.
+Lemma foldl_rbind_not_ok {A B} (f : A → B → res A) l (x : res A) :
+  (∀ a, x ≠ Ok a) → ∀ a, foldl (λ st it, rbind st (λ s, f s it)) x l ≠ Ok a.
+Proof. revert x. induction l as [|y l IH]; intros x Hx a; simpl; [apply Hx|]. apply IH. intros a'. destruct x; simpl; try done. by destruct (Hx a0). Qed.
+
+Definition reg_item (look : string → option bbdef) (it : item) : list (string * bbdef) :=
+  match it with IInst bb inst _ => match look bb with Some d => [(inst, d)] | None => [] end | _ => [] end.
+
+Lemma fast_pins_bbs t0 t1 inst d conns (st : res scan) s2 :
+  foldl (λ (st : res scan) (c : string * option opd),
+     match st, c.2 with
+     | Ok s, Some o =>
+         let net := fast_pin_opd t0 t1 o in
+         if bool_decide (c.1 ∈ bb_in d) then
+           Ok {| s_adds := s_adds s; s_edges := s_edges s ++ [(net, pin inst c.1)]; s_bbs := s_bbs s |}
+         else if bool_decide (c.1 ∈ bb_out d) then
+           Ok {| s_adds := s_adds s ++ [(Buf, net)]; s_edges := s_edges s ++ [(pin inst c.1, net)]; s_bbs := s_bbs s |}
+         else Raise ValueError
+     | st, _ => st end) st conns = Ok s2 → ∃ s1, st = Ok s1 ∧ s_bbs s2 = s_bbs s1.
+Proof.
+  revert st. induction conns as [|c conns IH]; intros st H; simpl in H; [eauto|].
+  apply IH in H as (s1 & H1 & H2). destruct st as [s| | |]; try (destruct c.2; done).
+  exists s. split; [done|]. rewrite H2. destruct c.2; [|by injection H1 as <-].
+  repeat case_bool_decide; try done; injection H1 as <-; done.
+Qed.
+
+Lemma fast_inst_bbs t0 t1 bbs s it s' : fast_inst t0 t1 bbs s it = Ok s' →
+  s_bbs s' = (s_bbs s ++ reg_item (find_bb_first bbs) it)%list.
+Proof.
+  destruct it as [ns|ns|ns|t inst ops|l r|bb inst conns]; simpl; try (intros [= <-]; by rewrite app_nil_r).
+  - destruct (fast_gate_opd t0 t1 <$> ops) as [|out ins]; [done|].
+    destruct (if bool_decide (parity_name t ∈ Gen_fastv.fast_parity) then _ else _) as [t' ins']. intros [= <-]. simpl. by rewrite app_nil_r.
+  - destruct (find_bb_first bbs bb) as [d|]; [|done]. intros H. apply rbind_ok in H as (s2 & H2 & [= <-]). simpl.
+    apply fast_pins_bbs in H2 as (s1 & [= <-] & ->). done.
+Qed.
+
+Lemma fast_scan_bbs t0 t1 bbs items s0 s' :
+  foldl (λ st it, rbind st (λ s, fast_inst t0 t1 bbs s it)) (Ok s0) items = Ok s' →
+  s_bbs s' = (s_bbs s0 ++ (items ≫= reg_item (find_bb_first bbs)))%list.
+Proof.
+  revert s0. induction items as [|it items IH]; intros s0 H; simpl in *; [injection H as <-; by rewrite app_nil_r|].
+  destruct (fast_inst t0 t1 bbs s0 it) as [s1| | |] eqn:E; try (by eapply foldl_rbind_not_ok in H).
+  apply IH in H. rewrite H. apply fast_inst_bbs in E. rewrite E. by rewrite <- app_assoc.
+Qed.
+Lemma fast_assign_bbs t0 t1 items s : s_bbs (foldl (fast_assign t0 t1) s items) = s_bbs s.
+Proof. revert s. induction items as [|it items IH]; intros s; simpl; [done|]. rewrite IH. by destruct it. Qed.
+
+Lemma fast_sem_bbs a bbs C : fast_sem a bbs = Ok C →
+  c_name C = a_name a ∧ c_bbs C = foldl (λ m p, <[p.1 := p.2]> m) ∅ (a_items a ≫= reg_item (find_bb_first bbs)).
+Proof.
+  unfold fast_sem. intros H. apply rbind_ok in H as (s1 & Hs & H).
+  destruct (set_output_g _ _ _) as [g4 o]. destruct o; [|done]. injection H as <-. simpl. split; [done|].
+  rewrite fast_assign_bbs. apply fast_scan_bbs in Hs. by rewrite Hs.
+Qed.
+
+Lemma rmap_ok {A B} (f : A → B) x b : rmap f x = Ok b → ∃ a, x = Ok a ∧ b = f a.
+Proof. unfold rmap. intros H. apply rbind_ok in H as (a & -> & [= <-]). eauto. Qed.
+
+Lemma add_blackbox_bbs C d inst ins outs conns C' : add_blackbox C d inst ins outs conns = (C', Done) →
+  c_bbs C' = <[inst := d]> (c_bbs C).
+Proof.
+  unfold add_blackbox. case_bool_decide; [done|].
+  destruct (foldl _ _ _) as [[g io] o].
+  match goal with |- context [match ?r.2 with _ => _ end] => set (rr := r) end.
+  destruct (rr.2) as [|e] eqn:E.
+  - intros [= <-]. done.
+  - destruct e; intros [= <- ?]; done.
+Qed.
+
+Lemma full_item_bbs t0 t1 tx bbs C it C' : full_item t0 t1 tx bbs C it = Ok C' →
+  c_bbs C' = foldl (λ m p, <[p.1 := p.2]> m) (c_bbs C) (reg_item (find_bb_last bbs) it).
+Proof.
+  destruct it as [ns|ns|ns|t inst ops|l r|bb inst conns]; simpl.
+  - intros H. apply rmap_ok in H as (g & _ & ->). done.
+  - by intros [= <-].
+  - by intros [= <-].
+  - intros H. apply rbind_ok in H as (names & _ & H). destruct names as [|out ins]; [done|].
+    destruct (if is_parity t then _ else _) as [t' ins']. apply rmap_ok in H as (g & _ & ->). done.
+  - intros H. apply rbind_ok in H as (e & _ & H). case_bool_decide; [by injection H as <-|].
+    apply rmap_ok in H as (g & _ & ->). done.
+  - intros H. apply rbind_ok in H as (cs & _ & H). destruct (find_bb_last bbs bb) as [d|]; [|done].
+    apply rbind_ok in H as (g1 & _ & H). apply rbind_ok in H as (g2 & _ & H).
+    destruct (add_blackbox _ _ _ _ _ _) as [C2 o] eqn:E. destruct o; [|done]. injection H as <-.
+    apply add_blackbox_bbs in E. done.
+Qed.
+
+Lemma full_items_bbs t0 t1 tx bbs items C0 C' :
+  foldl (λ st it, rbind st (λ C, full_item t0 t1 tx bbs C it)) (Ok C0) items = Ok C' →
+  c_bbs C' = foldl (λ m p, <[p.1 := p.2]> m) (c_bbs C0) (items ≫= reg_item (find_bb_last bbs)).
+Proof.
+  revert C0. induction items as [|it items IH]; intros C0 H; simpl in *; [by injection H as <-|].
+  destruct (full_item t0 t1 tx bbs C0 it) as [C1| | |] eqn:E; try (by eapply foldl_rbind_not_ok in H).
+  apply IH in H. rewrite H. apply full_item_bbs in E. rewrite E. by rewrite foldl_app.
+Qed.
+
+Lemma full_sem_bbs a bbs C : full_sem a bbs = Ok C →
+  c_name C = a_name a ∧ c_bbs C = foldl (λ m p, <[p.1 := p.2]> m) ∅ (a_items a ≫= reg_item (find_bb_last bbs)).
+Proof.
+  unfold full_sem. intros H.
+  apply rbind_ok in H as (g0 & _ & H). apply rbind_ok in H as (g1 & _ & H). apply rbind_ok in H as (g2 & _ & H).
+  apply rbind_ok in H as (C1 & HC & H).
+  destruct (negb _ || negb _ || negb _); [done|].
+  destruct (set_output_g _ _ _) as [g4 o]. destruct o; [|done]. injection H as <-. simpl. split; [done|].
+  apply full_items_bbs in HC. done.
+Qed.
+
+(* with unambiguous blackbox definitions both lookups coincide *)
+Lemma nodup_fmap_inj_on {A B} (f : A → B) (l : list A) x y : NoDup (f <$> l) → x ∈ l → y ∈ l → f x = f y → x = y.
+Proof.
+  induction l as [|z l IH]; intros Hnd Hx Hy Hf; [by apply elem_of_nil in Hx|].
+  rewrite fmap_cons in Hnd. apply NoDup_cons in Hnd as [Hz Hnd].
+  apply elem_of_cons in Hx as [->|Hx], Hy as [->|Hy]; [done| | |by apply IH].
+  - exfalso. apply Hz. rewrite Hf. by apply elem_of_list_fmap_1.
+  - exfalso. apply Hz. rewrite <- Hf. by apply elem_of_list_fmap_1.
+Qed.
+Lemma find_bb_first_spec bbs n d : NoDup (bb_name <$> bbs) → find_bb_first bbs n = Some d ↔ d ∈ bbs ∧ bb_name d = n.
+Proof.
+  intros Hnd. unfold find_bb_first. split.
+  - destruct (list_find _ bbs) as [[i d']|] eqn:E; [|done]. intros [= <-]. apply list_find_Some in E as (Hi & Hn & _).
+    split; [by eapply elem_of_list_lookup_2|done].
+  - intros [Hd Hn]. destruct (list_find_elem_of (λ d, bb_name d = n) bbs d Hd Hn) as [[i d'] E]. rewrite E. simpl. f_equal.
+    apply list_find_Some in E as (Hi & Hn' & _). apply (nodup_fmap_inj_on bb_name bbs); [done|by eapply elem_of_list_lookup_2|done|congruence].
+Qed.
+Lemma find_bb_first_last bbs n : NoDup (bb_name <$> bbs) → find_bb_last bbs n = find_bb_first bbs n.
+Proof.
+  intros Hnd. unfold find_bb_last.
+  assert (Hnd' : NoDup (bb_name <$> reverse bbs)) by (rewrite fmap_reverse; apply (NoDup_Permutation_proper _ _ (reverse_Permutation _)); done).
+  destruct (find_bb_first bbs n) as [d|] eqn:E.
+  - apply find_bb_first_spec in E as [Hd Hn]; [|done]. apply find_bb_first_spec; [done|]. split; [by rewrite elem_of_reverse|done].
+  - destruct (find_bb_first (reverse bbs) n) as [d|] eqn:E'; [|done].
+    apply find_bb_first_spec in E' as [Hd Hn]; [|done]. rewrite elem_of_reverse in Hd.
+    assert (find_bb_first bbs n = Some d) by (apply find_bb_first_spec; [done|split; done]). congruence.
+Qed.
+
+Theorem registry_agree a bbs Cf Cl : NoDup (bb_name <$> bbs) → fast_sem a bbs = Ok Cf → full_sem a bbs = Ok Cl →
+  c_name Cf = c_name Cl ∧ c_bbs Cf = c_bbs Cl.
+Proof.
+  intros Hnd [Hn1 Hb1]%fast_sem_bbs [Hn2 Hb2]%full_sem_bbs. split; [congruence|]. rewrite Hb1, Hb2. f_equal.
+  clear Hb1 Hb2. induction (a_items a) as [|it items IH]; [done|]. rewrite !bind_cons, IH. f_equal.
+  destruct it; simpl; try done. by rewrite find_bb_first_last.
+Qed.
